@@ -65,7 +65,7 @@ class Check(object):
         self.open_keys = {k['key']: k for k in self.known if k.get('status') == 'open'}
         self.counters = {}
         if not os.environ.get('VERIF_KEEP_REPLAY'):
-            shutil.rmtree(os.path.join(VERIF, 'replay', pid), ignore_errors=True)
+            shutil.rmtree(os.path.join(os.environ.get('VERIF_REPLAY_DIR') or os.path.join(VERIF, 'replay'), pid), ignore_errors=True)
 
     # ----- observations
     def ev(self, n=1):
@@ -107,7 +107,7 @@ class Check(object):
     # ----- end of run
     def _write_replay(self, key, v):
         kd = re.sub(r'[^A-Za-z0-9_.-]+', '_', key)[:80] + '-' + hashlib.sha1(key.encode()).hexdigest()[:8]
-        d = os.path.join(VERIF, 'replay', self.pid, kd)
+        d = os.path.join(os.environ.get('VERIF_REPLAY_DIR') or os.path.join(VERIF, 'replay'), self.pid, kd)
         shutil.rmtree(d, ignore_errors=True)
         os.makedirs(d)
         for name, content in v['files'].items():
@@ -138,8 +138,9 @@ class Check(object):
             cov.update(extra)
         ev = dict(property_id=self.pid, tier=self.tier, seed=self.seed, level=self.level, coverage=cov,
                   assumptions=list(assumptions), wall_s=round(wall, 2), violations=len(self.violations))
-        os.makedirs(os.path.join(VERIF, 'evidence'), exist_ok=True)
-        path = os.path.join(VERIF, 'evidence', self.pid + '.json')
+        evdir = os.environ.get('VERIF_EVIDENCE_DIR') or os.path.join(VERIF, 'evidence')   # experiments on scratch trees redirect this
+        os.makedirs(evdir, exist_ok=True)
+        path = os.path.join(evdir, self.pid + '.json')
         with open(path + '.tmp', 'w') as f:
             json.dump(ev, f, indent=1, default=str)
             f.write('\n')
